@@ -55,6 +55,32 @@ func ApplyDamage(dir string, d Damage) error {
 		}
 		_, err = f.WriteAt(buf, d.N)
 		return err
+	case "weakkeep": // +1,-2,+1 on three adjacent bytes at/after offset N: the rolling (weak) hash of the block stays the same
+		f, err := os.OpenFile(full, os.O_RDWR, 0)
+		if err != nil {
+			return err
+		}
+		defer f.Close()
+		st, err := f.Stat()
+		if err != nil {
+			return err
+		}
+		end := (d.N/BS + 1) * BS // stay inside the block of offset N
+		if end > st.Size() {
+			end = st.Size()
+		}
+		var b [3]byte
+		for o := d.N; o+3 <= end; o++ {
+			if _, err := f.ReadAt(b[:], o); err != nil {
+				return err
+			}
+			if b[0] < 255 && b[1] >= 2 && b[2] < 255 {
+				b[0], b[1], b[2] = b[0]+1, b[1]-2, b[2]+1
+				_, err = f.WriteAt(b[:], o)
+				return err
+			}
+		}
+		return fmt.Errorf("weakkeep: no suitable byte triple in the block of offset %d", d.N)
 	case "truncate": // to length N
 		return os.Truncate(full, d.N)
 	case "extend": // by N random bytes
@@ -194,6 +220,16 @@ func FileDamages(path string, size int64) []Damage {
 			Damage{Op: "garble", Path: path, N: BS, S: fmt.Sprint(4*MB + 3*BS)},
 			Damage{Op: "garble", Path: path, N: 3*BS + 77, S: fmt.Sprint(size - 3*BS - 77)},
 			Damage{Op: "garble", Path: path, N: 2 * BS, S: fmt.Sprint(4 * MB)})
+	}
+	// an edit that leaves the block's weak hash as it was (only the strong hash tells): first, middle and last block
+	if size >= 3 {
+		seenW := map[int64]bool{}
+		for _, o := range []int64{0, (nb / 2) * BS, (nb - 1) * BS} {
+			if o+3 <= size && !seenW[o] {
+				seenW[o] = true
+				add("weakkeep", o)
+			}
+		}
 	}
 	add("delete", 0)
 	add("todir", 0)
